@@ -1,8 +1,8 @@
 (* C13 — Variable types obey their domain laws.  Property theorems only. *)
 From Coq Require Import List ZArith Bool Permutation.
 From PV Require Import Xnum Select PyLib Argsort Vars Vars_proofs.
-From PVGen Require Import GenVars.
-From PVBridge Require Import VarsBridge C13Main.
+From PVGen Require Import GenVars GenMultiVar.
+From PVBridge Require Import VarsBridge C13Main MultiVarBridge.
 
 Theorem C13_continuous : forall lo hi x, is_fin lo = true -> is_fin hi = true -> xltb lo hi = true -> non_nan x ->
   let y := gen_cont_correct lo hi x in
@@ -72,3 +72,51 @@ Print Assumptions C13_correct_idem.
 Print Assumptions C13_random_in_dom.
 Print Assumptions C13_decode_declared.
 Print Assumptions C13_multi_validators.
+
+(* ---- the multi-variable classes themselves, REGENERATED from models.py (children built in __init__, correct / decode over enumerate(children),
+   validators): they are the hand model's children / correct_var / decode_var / valid_varb, and the domain laws hold for a whole multi-variable *)
+Theorem C13_multi_children_regenerated :
+  (forall los his, gen_cmv_children los his = children (VContMulti los his)) /\
+  (forall los his, gen_mov_children los his = children (VMultiObj los his)) /\
+  (forall C (choices : list (list C)), gen_dmv_children C choices = Some (children (VDiscMulti (map (@length C) choices)))) /\
+  (forall n, gen_bin_children n = children (VBinary (Z.of_nat n))).
+Proof. exact (conj cmv_children_bridge (conj mov_children_bridge (conj dmv_children_bridge bin_children_bridge))). Qed.
+Print Assumptions C13_multi_children_regenerated.
+Theorem C13_multi_correct_regenerated :
+  (forall los his cs, gen_cmv_correct (gen_cmv_children los his) cs = correct_var (VContMulti los his) cs) /\
+  (forall los his cs, gen_mov_correct (gen_mov_children los his) cs = correct_var (VMultiObj los his) cs) /\
+  (forall C (choices : list (list C)) cs, obind (gen_dmv_children C choices) (fun ch => gen_dmv_correct ch cs) = correct_var (VDiscMulti (map (@length C) choices)) cs) /\
+  (forall n cs, gen_bin_correct (gen_bin_children n) cs = correct_var (VBinary (Z.of_nat n)) cs).
+Proof. exact (conj cmv_correct_bridge (conj mov_correct_bridge (conj dmv_correct_bridge bin_correct_bridge))). Qed.
+Print Assumptions C13_multi_correct_regenerated.
+Theorem C13_multi_decode_regenerated :
+  (forall los his cs, option_map DList (gen_cmv_decode (gen_cmv_children los his) cs) = decode_var (VContMulti los his) cs) /\
+  (forall los his cs, option_map DList (gen_mov_decode (gen_mov_children los his) cs) = decode_var (VMultiObj los his) cs) /\
+  (forall C (choices : list (list C)) cs,
+      option_map DList (obind (gen_dmv_children C choices) (fun ch => gen_dmv_decode ch cs)) = decode_var (VDiscMulti (map (@length C) choices)) cs) /\
+  (forall n cs, option_map DList (gen_bin_decode (gen_bin_children n) cs) = decode_var (VBinary (Z.of_nat n)) cs).
+Proof. exact (conj cmv_decode_bridge (conj mov_decode_bridge (conj dmv_decode_bridge bin_decode_bridge))). Qed.
+Print Assumptions C13_multi_decode_regenerated.
+Theorem C13_multi_validators_regenerated :
+  (forall los his, gen_cmv_validate los his = None <-> valid_varb (VContMulti los his) = false) /\
+  (forall los his, gen_mov_validate los his = None <-> valid_varb (VMultiObj los his) = false).
+Proof. exact (conj cmv_validate_bridge mov_validate_bridge). Qed.
+Print Assumptions C13_multi_validators_regenerated.
+(* correct of a whole multi-variable: defined on every value with at least one well-shaped entry per child, lands in every child's domain, is idempotent,
+   and leaves members unchanged *)
+Theorem C13_multi_correct_laws : forall v cs, has_children v = true -> Forall valid_svar (children v) -> length (children v) <= length cs ->
+  Forall (fun p => shape_ok (fst p) (snd p)) (zip (children v) cs) ->
+  exists cs', correct_var v cs = Some cs' /\ length cs' = length (children v) /\
+    Forall2 (fun sv c' => in_domb sv c' = true) (children v) cs' /\ correct_var v cs' = Some cs'.
+Proof. exact multi_correct_laws. Qed.
+Print Assumptions C13_multi_correct_laws.
+Theorem C13_multi_correct_fix : forall v cs, has_children v = true -> Forall2 (fun sv c => in_domb sv c = true) (children v) cs -> correct_var v cs = Some cs.
+Proof. exact multi_correct_fix. Qed.
+Print Assumptions C13_multi_correct_fix.
+Import ListNotations.
+Example C13_multi_nonvacuous :
+  let v := VContMulti [xint 0; xint (-1)] [xint 1; xint 1] in
+  has_children v = true /\ valid_varb v = true /\
+  gen_cmv_correct (gen_cmv_children [xint 0; xint (-1)] [xint 1; xint 1]) [CNum (xint 5); CNum (xint (-7))] = Some [CNum (xint 1); CNum (xint (-1))] /\
+  gen_cmv_correct (gen_cmv_children [xint 0; xint (-1)] [xint 1; xint 1]) [CNum (xint 5)] = None.
+Proof. vm_compute. repeat split. Qed.
